@@ -175,7 +175,7 @@ PROPS.update({
                "flattened streams, plus the boundary-state oracle after every emitted batch."),
         technique="Lean 4 proof (induction over the poll loop, algebraic law of the container fold) + model/implementation correspondence in both flavours",
         design_ref="DESIGN.md §6 C13"),
-    "C14": dict(adp_prop(["EyeballVerif.Props.C14", "EyeballVerif.Props.C14Pipe"],
+    "C14": dict(adp_prop(["EyeballVerif.Props.C14", "EyeballVerif.Props.C14Pipe", "EyeballVerif.Props.C14Idem"],
         "c14_pipe_pending_registered (for chains of any adapters of any depth, both stream flavours, any fuel: a poll that answers Pending leaves the bottom subscriber parked in the channel and every stage's limit/count stream "
         "either ended or holding the waker — induction over the poll loop); c14_send_wakes / c14_direct_wakes / c14_limit_wakes: each kind of event wakes exactly what is registered; c14_limPoll_registers / c14_sub_pending_parked: a Pending source has registered the waker",
         engines=[{"name": "adp"}, {"name": "vec"}]),
